@@ -38,12 +38,12 @@ import (
 
 // one call of a goroutine
 type c18Call struct {
-	K      string `json:"k"`            // new | edit | commit | resolve | query | queryq | allids
+	K      string `json:"k"`            // new | edit | commit | resolve | query | queryq | querys | allids | barrier
 	B      int    `json:"b"`            // shared bug index (>= 0) or -1: the goroutine's own latest bug
-	Op     string `json:"op,omitempty"` // edit: comment | title | close | open | label | body
+	Op     string `json:"op,omitempty"` // edit: comment | title | close | open | label | body; querys: the search term
 	Commit bool   `json:"commit,omitempty"`
 	Prefix bool   `json:"prefix,omitempty"` // resolve through ResolvePrefix (as the web UI does)
-	N      int    `json:"n,omitempty"`      // query / allids: number of repetitions (default 1)
+	N      int    `json:"n,omitempty"`      // query / querys / allids: number of repetitions (default 1)
 }
 
 type c18Input struct {
@@ -64,7 +64,70 @@ func init() { register("C18", c18Driver{}) }
 
 var c18EditOps = []string{"comment", "comment", "comment", "title", "close", "open", "label", "body"}
 
+// terms of the full-text queries: words of the titles / messages written by the set-up and by the edits
+var c18SearchTerms = []string{"shared", "message", "comment", "title"}
+
+// flavour burst: groups of 2-4 goroutines edit the same bug at the same time (a barrier before every round),
+// each bug is edited by one group in one round only and the operations stay staged: whatever excerpt the
+// racing entityUpdated calls leave behind is what the cache shows once the goroutines are done.
+func c18GenBurst(r *Rand, big bool) c18Input {
+	in := c18Input{Flavor: "burst"}
+	in.Procs = []int{2, 4, 16, 16}[r.Intn(4)]
+	if r.Chance(1, 8) {
+		in.Procs = 1
+	}
+	group := r.Range(2, 4)
+	ngroups := r.Range(2, 3)
+	if big {
+		ngroups = r.Range(2, 4)
+	}
+	rounds := r.Range(4, 6)
+	in.Shared = ngroups * rounds
+	// mostly on a cache that was just opened: every first Resolve reads its bug from git while it holds the
+	// sub-cache lock, so the notifications of the other groups queue up behind it (as after a server start)
+	in.Reopen = !r.Chance(1, 6)
+	ops := []string{"comment", "close", "title", "label", "comment", "open", "body"}
+	for g := 0; g < ngroups; g++ {
+		for m := 0; m < group; m++ {
+			var calls []c18Call
+			for k := 0; k < rounds; k++ {
+				calls = append(calls, c18Call{K: "barrier", B: -1})
+				// the members of a group issue different kinds of operations: any overtaken excerpt differs from the final one
+				calls = append(calls, c18Call{K: "edit", B: g*rounds + k, Op: ops[(m+k)%len(ops)], Commit: false, Prefix: r.Chance(1, 4)})
+			}
+			in.Threads = append(in.Threads, calls)
+		}
+	}
+	return in
+}
+
+// flavour churn: 12-16 goroutines resolve, edit and commit 3-4 bugs through a cache that was just opened and
+// may hold 1-2 of them: every Resolve is likely to read its bug from git while the others load, commit and
+// evict the very same bug (the window of a Resolve that reads before it looks again; most runs end on the
+// by-design wait for an evicted handle, what was acknowledged before is still compared with git)
+func c18GenChurn(r *Rand) c18Input {
+	in := c18Input{Flavor: "churn", Reopen: true}
+	in.Procs = []int{1, 2, 4}[r.Intn(3)]
+	nth := r.Range(12, 16)
+	in.Shared = r.Range(3, 4)
+	in.CacheSize = r.Range(1, 2)
+	for t := 0; t < nth; t++ {
+		var calls []c18Call
+		for k := 0; k < 6; k++ {
+			calls = append(calls, c18Call{K: "edit", B: r.Intn(in.Shared), Op: c18EditOps[r.Intn(len(c18EditOps))], Commit: true, Prefix: r.Bool()})
+		}
+		in.Threads = append(in.Threads, calls)
+	}
+	return in
+}
+
 func c18GenCase(r *Rand, flavor string, big bool) c18Input {
+	if flavor == "burst" {
+		return c18GenBurst(r, big)
+	}
+	if flavor == "churn" {
+		return c18GenChurn(r)
+	}
 	in := c18Input{Flavor: flavor}
 	in.Procs = []int{1, 2, 4, 16}[r.Intn(4)]
 	nth := r.Range(2, 8)
@@ -100,9 +163,15 @@ func c18GenCase(r *Rand, flavor string, big bool) c18Input {
 			}
 			switch {
 			case x < qshare:
-				qc := c18Call{K: []string{"query", "queryq", "allids", "resolve"}[r.Intn(4)], B: r.Intn(in.Shared), Prefix: r.Bool()}
+				qc := c18Call{K: []string{"query", "queryq", "allids", "resolve", "querys"}[r.Intn(5)], B: r.Intn(in.Shared), Prefix: r.Bool()}
 				if flavor == "query" && (qc.K == "query" || qc.K == "allids") && r.Bool() {
 					qc.N = r.Range(100, 3000) // a client polling the list
+				}
+				if qc.K == "querys" {
+					qc.Op = c18SearchTerms[r.Intn(len(c18SearchTerms))]
+					if flavor == "query" && r.Bool() {
+						qc.N = r.Range(50, 600) // somebody typing in the search box of the bug list
+					}
 				}
 				calls = append(calls, qc)
 			case x < qshare+15:
@@ -122,15 +191,21 @@ func c18GenCase(r *Rand, flavor string, big bool) c18Input {
 		}
 		in.Threads = append(in.Threads, calls)
 	}
+	if flavor == "query" {
+		// one goroutine at least keeps searching while the others edit
+		t := r.Intn(nth)
+		poll := c18Call{K: "querys", B: 0, Op: c18SearchTerms[r.Intn(len(c18SearchTerms))], N: r.Range(200, 800)}
+		in.Threads[t] = append([]c18Call{poll}, in.Threads[t]...)
+	}
 	return in
 }
 
 func (c18Driver) Gen(r *Rand, tier string) []json.RawMessage {
-	// quick: about 70 stress runs; thorough: 15x more and up to 16 goroutines
+	// quick: about 60 stress runs; thorough: 18x more and up to 16 goroutines
 	plan := []struct {
 		flavor string
 		n      int
-	}{{"mixed", 10}, {"reopen", 14}, {"evict", 14}, {"query", 10}, {"tiny", 4}}
+	}{{"mixed", 10}, {"reopen", 14}, {"evict", 12}, {"query", 10}, {"tiny", 4}, {"burst", 5}, {"churn", 4}}
 	mult := 1
 	if tier == "thorough" {
 		mult = 18
@@ -194,6 +269,50 @@ type c18Run struct {
 	recs      [][]c18Rec
 	doneCount *atomic.Int64
 	notes     []string
+	bar       *c18Barrier
+}
+
+// a cyclic barrier for the goroutines of one run; a goroutine that ends leaves it for good
+type c18Barrier struct {
+	mu      sync.Mutex
+	cond    *sync.Cond
+	parties int
+	arrived int
+	gen     int
+}
+
+func c18NewBarrier(n int) *c18Barrier {
+	b := &c18Barrier{parties: n}
+	b.cond = sync.NewCond(&b.mu)
+	return b
+}
+
+// c18BarrierWait is recognised by name in the goroutine dumps of the watchdog
+func c18BarrierWait(b *c18Barrier) {
+	b.mu.Lock()
+	defer b.mu.Unlock()
+	b.arrived++
+	if b.arrived >= b.parties {
+		b.arrived = 0
+		b.gen++
+		b.cond.Broadcast()
+		return
+	}
+	g := b.gen
+	for g == b.gen {
+		b.cond.Wait()
+	}
+}
+
+func (b *c18Barrier) leave() {
+	b.mu.Lock()
+	defer b.mu.Unlock()
+	b.parties--
+	if b.parties > 0 && b.arrived >= b.parties {
+		b.arrived = 0
+		b.gen++
+		b.cond.Broadcast()
+	}
 }
 
 func (s *c18Run) open() error {
@@ -287,9 +406,67 @@ func (s *c18Run) resolve(id entity.Id, prefix bool) (*cache.BugCache, error) {
 	return s.c.Bugs().Resolve(id)
 }
 
+// a word that only the text written by call k of goroutine t contains
+func c18Word(t, k int) string { return fmt.Sprintf("w%dx%dz", t, k) }
+
+// Once the goroutines are done, before the flush: the full-text index against the entities. For every text a
+// successful edit wrote (comment, title, body of the first comment): the bug is found by the word only that
+// text contains exactly when the text is still part of what the entity of the cache shows (a later title or
+// body edit replaces the earlier one). Returns bug id -> difference.
+func (s *c18Run) staleIndex(calls []c18Rec) map[string]string {
+	res := map[string]string{}
+	texts := map[string]string{}
+	for _, r := range calls {
+		call := s.in.Threads[r.T][r.K]
+		if call.K != "edit" || r.OpID == "" || r.EditE != c18OK || r.Bug == "" {
+			continue
+		}
+		switch call.Op {
+		case "title", "body", "comment":
+		default:
+			continue
+		}
+		if _, ok := texts[r.Bug]; !ok {
+			b, err := s.c.Bugs().Resolve(entity.Id(r.Bug))
+			if err != nil {
+				continue
+			}
+			snap := b.Snapshot()
+			var sb strings.Builder
+			for _, c := range snap.Comments {
+				sb.WriteString(c.Message + " ")
+			}
+			sb.WriteString(snap.Title + " ")
+			texts[r.Bug] = sb.String()
+		}
+		word := c18Word(r.T, r.K)
+		want := strings.Contains(texts[r.Bug], word+" ")
+		q, err := query.Parse(word + " sort:id")
+		if err != nil {
+			panic(err)
+		}
+		ids, err := s.c.Bugs().Query(q)
+		if err != nil {
+			res[r.Bug] = "index: query " + word + ": " + err.Error()
+			continue
+		}
+		have := false
+		for _, id := range ids {
+			if id.String() == r.Bug {
+				have = true
+			}
+		}
+		if have != want {
+			res[r.Bug] = fmt.Sprintf("index: the text of call t%d k%d (%s) is in the entity: %v, found by the full-text search: %v", r.T, r.K, call.Op, want, have)
+		}
+	}
+	return res
+}
+
 // one goroutine
 func (s *c18Run) worker(t int, start <-chan struct{}, wg *sync.WaitGroup) {
 	defer wg.Done()
+	defer s.bar.leave()
 	var own entity.Id
 	recs := s.recs[t]
 	k := 0
@@ -342,7 +519,7 @@ func (s *c18Run) worker(t int, start <-chan struct{}, wg *sync.WaitGroup) {
 			var opid entity.Id
 			switch call.Op {
 			case "title":
-				o, e := b.SetTitleRaw(s.author, unix, fmt.Sprintf("title t%d k%d", t, k), nil)
+				o, e := b.SetTitleRaw(s.author, unix, fmt.Sprintf("title t%d k%d %s", t, k, c18Word(t, k)), nil)
 				if err = e; o != nil {
 					opid = o.Id()
 				}
@@ -362,12 +539,12 @@ func (s *c18Run) worker(t int, start <-chan struct{}, wg *sync.WaitGroup) {
 					opid = o.Id()
 				}
 			case "body":
-				_, o, e := b.EditCreateCommentRaw(s.author, unix, fmt.Sprintf("body t%d k%d", t, k), nil)
+				_, o, e := b.EditCreateCommentRaw(s.author, unix, fmt.Sprintf("body t%d k%d %s", t, k, c18Word(t, k)), nil)
 				if err = e; o != nil {
 					opid = o.Id()
 				}
 			default:
-				_, o, e := b.AddCommentRaw(s.author, unix, fmt.Sprintf("comment t%d k%d", t, k), nil, nil)
+				_, o, e := b.AddCommentRaw(s.author, unix, fmt.Sprintf("comment t%d k%d %s", t, k, c18Word(t, k)), nil, nil)
 				if err = e; o != nil {
 					opid = o.Id()
 				}
@@ -426,11 +603,28 @@ func (s *c18Run) worker(t int, start <-chan struct{}, wg *sync.WaitGroup) {
 			if _, err := s.c.Bugs().Query(q); err != nil {
 				fail(err)
 			}
+		case "querys":
+			term := call.Op
+			if term == "" {
+				term = "shared"
+			}
+			q, err := query.Parse(term + " sort:id")
+			if err != nil {
+				panic(err)
+			}
+			for n := 0; n < call.N || n == 0; n++ {
+				if _, err := s.c.Bugs().Query(q); err != nil {
+					fail(err)
+					break
+				}
+			}
 		case "allids":
 			for n := 0; n < call.N || n == 0; n++ {
 				_ = s.c.Bugs().AllIds()
 				_ = s.c.Identities().AllIds()
 			}
+		case "barrier":
+			c18BarrierWait(s.bar)
 		}
 		rec.Done = true
 		if s.doneCount != nil {
@@ -466,6 +660,9 @@ func c18ClassifyDump(dump string, mine string) []string {
 		switch {
 		case strings.Contains(inner, ").AllIds") && strings.Contains(g, "RepoCacheBug).Query"):
 			tags["stuck:query-allids-waits-rlock"] = true
+		case blockedR && !innerHandle && strings.Contains(g, "RepoCacheBug).Query") && !strings.Contains(inner, "RepoCacheBug).Query"):
+			// a function called by Query asks for the sub-cache read lock that Query already holds
+			tags["stuck:query-reenters-rlock"] = true
 		case innerHandle && strings.Contains(g, ").evictIfNeeded"):
 			tags["stuck:evict-waits-entity-lock"] = true
 		case strings.Contains(inner, ").evictIfNeeded"):
@@ -512,6 +709,39 @@ type c18View struct {
 	Err     string                `json:"err,omitempty"`
 }
 
+func c18ExcerptStr(ex *cache.BugExcerpt) string {
+	labels := make([]string, len(ex.Labels))
+	for i, l := range ex.Labels {
+		labels[i] = string(l)
+	}
+	return fmt.Sprintf("create=%d edit=%d cunix=%d eunix=%d author=%s status=%v labels=%v title=%q ncomments=%d actors=%v participants=%v",
+		ex.CreateLamportTime, ex.EditLamportTime, ex.CreateUnixTime, ex.EditUnixTime, ex.AuthorId, ex.Status, labels, ex.Title, ex.LenComments, ex.Actors, ex.Participants)
+}
+
+// Once the goroutines are done (and before anything else touches the cache): for every bug the cache
+// lists, the excerpt it holds (what Query, ResolveExcerpt and the bug lists show) against the excerpt
+// computed from the entity the cache hands out for that id, staged operations included, which is what
+// every entityUpdated stores and what a rebuild computes. Returns id -> difference.
+func c18StaleExcerpts(c *cache.RepoCache) map[string]string {
+	res := map[string]string{}
+	for _, id := range c.Bugs().AllIds() {
+		ex, err := c.Bugs().ResolveExcerpt(id)
+		if err != nil {
+			continue // listed and gone: reported by the comparison with the rebuilt cache
+		}
+		have := c18ExcerptStr(ex)
+		b, err := c.Bugs().Resolve(id)
+		if err != nil {
+			res[id.String()] = fmt.Sprintf("excerpt {%s} but the bug does not resolve: %v", have, err)
+			continue
+		}
+		if want := c18ExcerptStr(cache.NewBugExcerpt(b)); want != have {
+			res[id.String()] = fmt.Sprintf("cache holds {%s}, its entity gives {%s}", have, want)
+		}
+	}
+	return res
+}
+
 func c18Observe(c *cache.RepoCache) c18View {
 	v := c18View{Bugs: map[string]c18BugView{}, Queries: map[string][]string{}}
 	ids := c.Bugs().AllIds()
@@ -521,12 +751,7 @@ func c18Observe(c *cache.RepoCache) c18View {
 		if err != nil {
 			bv.Excerpt = "ERR " + err.Error()
 		} else {
-			labels := make([]string, len(ex.Labels))
-			for i, l := range ex.Labels {
-				labels[i] = string(l)
-			}
-			bv.Excerpt = fmt.Sprintf("create=%d edit=%d cunix=%d eunix=%d author=%s status=%v labels=%v title=%q ncomments=%d actors=%v participants=%v",
-				ex.CreateLamportTime, ex.EditLamportTime, ex.CreateUnixTime, ex.EditUnixTime, ex.AuthorId, ex.Status, labels, ex.Title, ex.LenComments, ex.Actors, ex.Participants)
+			bv.Excerpt = c18ExcerptStr(ex)
 		}
 		b, err := c.Bugs().Resolve(id)
 		if err != nil {
@@ -637,16 +862,19 @@ func c18ReadStored(repo repository.ClockedRepo, id entity.Id) c18Stored {
 }
 
 type c18Obs struct {
-	Stuck     bool                 `json:"stuck"`
-	StuckTags []string             `json:"stuck_tags,omitempty"`
-	Dump      string               `json:"dump,omitempty"`
-	Calls     []c18Rec             `json:"calls"`
-	Flush     map[string]string    `json:"flush,omitempty"`
-	Stored    map[string]c18Stored `json:"stored,omitempty"`
-	Coherent  bool                 `json:"coherent"`
-	Diff      []string             `json:"diff,omitempty"`
-	Notes     []string             `json:"notes,omitempty"`
-	WallMs    int64                `json:"wall_ms"`
+	Stuck      bool                 `json:"stuck"`
+	StuckTags  []string             `json:"stuck_tags,omitempty"`
+	Dump       string               `json:"dump,omitempty"`
+	Calls      []c18Rec             `json:"calls"`
+	Flush      map[string]string    `json:"flush,omitempty"`
+	Stored     map[string]c18Stored `json:"stored,omitempty"`
+	Coherent   bool                 `json:"coherent"`
+	Diff       []string             `json:"diff,omitempty"`
+	Stale      map[string]string    `json:"stale_excerpts,omitempty"` // before the flush: excerpt in the cache != excerpt of the cached entity
+	StaleIndex map[string]string    `json:"stale_index,omitempty"`    // before the flush: full-text index != texts of the cached entity
+	Notes      []string             `json:"notes,omitempty"`
+	WallMs     int64                `json:"wall_ms"`  // the goroutines
+	TotalMs    int64                `json:"total_ms"` // set-up, goroutines, flush, observations, rebuild
 }
 
 func (c18Driver) Run(raw json.RawMessage) Case {
@@ -658,6 +886,7 @@ func (c18Driver) Run(raw json.RawMessage) Case {
 		in.Procs = 1
 	}
 	s := &c18Run{in: in}
+	tStart := time.Now()
 	prev := runtime.GOMAXPROCS(in.Procs)
 	defer runtime.GOMAXPROCS(prev)
 	if err := s.setup(); err != nil {
@@ -676,6 +905,7 @@ func (c18Driver) Run(raw json.RawMessage) Case {
 	}
 	var doneCount atomic.Int64
 	s.doneCount = &doneCount
+	s.bar = c18NewBarrier(len(in.Threads))
 	start := make(chan struct{})
 	var wg sync.WaitGroup
 	for t := range in.Threads {
@@ -698,7 +928,7 @@ func (c18Driver) Run(raw json.RawMessage) Case {
 	}
 	mine := fmt.Sprintf("main.(*c18Run).worker(%p,", s)
 	allBlocked := func(dump string) bool {
-		n := 0
+		n, atBarrier := 0, 0
 		for _, g := range strings.Split(dump, "\n\n") {
 			if !strings.Contains(g, mine) {
 				continue
@@ -708,11 +938,16 @@ func (c18Driver) Run(raw json.RawMessage) Case {
 			if i := strings.Index(g, "\n"); i >= 0 {
 				head = g[:i]
 			}
+			if strings.Contains(g, "main.c18BarrierWait(") {
+				// waits for the other goroutines of the run: blocked, as long as one of them waits for a lock
+				atBarrier++
+				continue
+			}
 			if !(strings.Contains(head, "[sync.Mutex.Lock") || strings.Contains(head, "[sync.RWMutex.RLock") || strings.Contains(head, "[sync.RWMutex.Lock") || strings.Contains(head, "[semacquire")) {
 				return false
 			}
 		}
-		return n > 0
+		return n > 0 && atBarrier < n
 	}
 	deadline := time.After(time.Duration(timeout) * time.Second)
 	tick := time.NewTicker(1500 * time.Millisecond)
@@ -793,6 +1028,9 @@ wait:
 	flushClass := map[string]int{}
 	var live c18View
 	if !obs.Stuck {
+		// the excerpts the goroutines left behind against the entities they belong to
+		obs.Stale = c18StaleExcerpts(s.c)
+		obs.StaleIndex = s.staleIndex(calls)
 		// flush what was left staged, then look at the live cache, then close it
 		var ids []string
 		for id := range bugIDs {
@@ -850,6 +1088,7 @@ wait:
 	if obs.Stuck {
 		os.RemoveAll(s.dir)
 	}
+	obs.TotalMs = time.Since(tStart).Milliseconds()
 	return c18Render(in, raw, s, obs, flushClass)
 }
 
@@ -946,8 +1185,21 @@ func c18Render(in c18Input, raw json.RawMessage, s *c18Run, obs c18Obs, flushCla
 			evict = 2
 		}
 	}
+	// the bugs whose excerpt was stale once the goroutines were done (0: a bug no call of the run knows)
+	staleIDs := map[string]bool{}
+	for id := range obs.Stale {
+		staleIDs[id] = true
+	}
+	for id := range obs.StaleIndex {
+		staleIDs[id] = true
+	}
+	var staleNos []int
+	for id := range staleIDs {
+		staleNos = append(staleNos, bugNo[id])
+	}
+	sort.Ints(staleNos)
 	// last field: unsynchronised accesses to a Go map seen by the race detector (filled in by the C18r driver)
-	term := fmt.Sprintf("mkcase %d %d %s %s %s %s %s 0", evict, len(s.shared), coqList(callTerms), coqList(flushTerms), coqList(bugTerms), coqBool(obs.Stuck), coqBool(obs.Coherent))
+	term := fmt.Sprintf("mkcase %d %d %s %s %s %s %s %s 0", evict, len(s.shared), coqList(callTerms), coqList(flushTerms), coqList(bugTerms), coqBool(obs.Stuck), coqBool(obs.Coherent), coqNats(staleNos))
 	tags := []string{"flavor:" + in.Flavor, fmt.Sprintf("procs:%d", in.Procs), fmt.Sprintf("n:goroutines:%d", len(in.Threads)), fmt.Sprintf("evict:%d", evict)}
 	if in.Reopen {
 		tags = append(tags, "reopen")
@@ -955,6 +1207,32 @@ func c18Render(in c18Input, raw json.RawMessage, s *c18Run, obs c18Obs, flushCla
 	if obs.Stuck {
 		tags = append(tags, "stuck")
 		tags = append(tags, obs.StuckTags...)
+	}
+	if len(staleIDs) > 0 {
+		tags = append(tags, "stale-excerpt")
+		// per stale bug: entityUpdated told a caller "entity missing from cache" about it (the entity was evicted
+		// between the change and the notification); or only the full-text index is behind; or neither
+		missed := map[string]bool{}
+		for _, r := range obs.Calls {
+			if r.Bug != "" && (r.EditE == c18Missing || r.CommE == c18Missing) {
+				missed[r.Bug] = true
+			}
+		}
+		kinds := map[string]bool{}
+		for id := range staleIDs {
+			_, ex := obs.Stale[id]
+			switch {
+			case missed[id]:
+				kinds["stale:after-missing"] = true
+			case !ex:
+				kinds["stale:index-only"] = true
+			default:
+				kinds["stale:unexplained"] = true
+			}
+		}
+		for k := range kinds {
+			tags = append(tags, k)
+		}
 	}
 	if !obs.Coherent {
 		tags = append(tags, "incoherent")
@@ -1000,6 +1278,8 @@ func c18Render(in c18Input, raw json.RawMessage, s *c18Run, obs c18Obs, flushCla
 		}
 		if only {
 			tags = append(tags, "incoherent:failed-new-bug-only")
+		} else {
+			tags = append(tags, "incoherent:unexplained")
 		}
 	}
 	// Go-side classification, for histograms and finding signatures only (the verdict is computed in Coq)
@@ -1041,7 +1321,21 @@ func c18Render(in c18Input, raw json.RawMessage, s *c18Run, obs c18Obs, flushCla
 		tags = append(tags, "err:"+k)
 	}
 	sort.Strings(tags)
-	return Case{Coq: term, Obs: obs, Tags: tags, NonTrivial: ncommitted >= 2 && len(in.Threads) >= 2, Key: string(raw)}
+	// two goroutines edited the same bug successfully
+	editors := map[string]map[int]bool{}
+	sameBug := false
+	for _, r := range obs.Calls {
+		if in.Threads[r.T][r.K].K == "edit" && r.OpID != "" && r.EditE == c18OK {
+			if editors[r.Bug] == nil {
+				editors[r.Bug] = map[int]bool{}
+			}
+			editors[r.Bug][r.T] = true
+			if len(editors[r.Bug]) >= 2 {
+				sameBug = true
+			}
+		}
+	}
+	return Case{Coq: term, Obs: obs, Tags: tags, NonTrivial: len(in.Threads) >= 2 && (ncommitted >= 2 || (in.Flavor == "burst" && sameBug)), Key: string(raw)}
 }
 
 // ---- C18r: the same runs under the race detector ----
